@@ -154,7 +154,9 @@ CLAIMS["C16"] = (
     "probe data, Retort.load accepts exactly the data conforming to the specified substituted type (incl. bare use with "
     "implicit parameters); the model's resolve is evaluated on the same tables and compared with the restated specification.",
     "Trusted: Coq kernel, renderers, the harness's conformance checker for the probe pool. Introspection of the model classes "
-    "(which annotations a class carries, overriden_types) is tied by behaviour only. TypeVarTuple is not modelled.",
+    "(which annotations a class carries, overriden_types) is tied by behaviour only. TypeVarTuple is not modelled; a field "
+    "reachable through two bases of one class (diamond) is outside the model, which searches bases depth-first where Python "
+    "linearises with C3.",
     "DESIGN.md section 5 C16", TECH)
 
 CLAIMS["C11"] = (
